@@ -34,7 +34,8 @@ func ParseEntry(s string) (netip.Addr, bool) {
 	if err != nil {
 		return netip.Addr{}, false
 	}
-	if a.Unmap().IsUnspecified() {
+	// (a zone does not make the unspecified address an address; netip compares the zone too)
+	if a.WithZone("").Unmap().IsUnspecified() {
 		return netip.Addr{}, false
 	}
 	return a, true
